@@ -34,7 +34,7 @@ impl Fact {
         match &self.parameters {
             None => Ok(()),
             Some(parameters) => {
-                let invalid_parameters = parameters
+                let mut invalid_parameters = parameters
                     .iter()
                     .filter_map(
                         |(name, opt_term)| {
@@ -47,6 +47,17 @@ impl Fact {
                     )
                     .map(|name| name.to_string())
                     .collect::<Vec<_>>();
+                // parameters that substitution would leave in place (map keys
+                // bound to a value that cannot be a key)
+                let mut remaining = vec![];
+                for term in &self.predicate.terms {
+                    term.remaining_parameters(parameters, &mut remaining);
+                }
+                for name in remaining {
+                    if !invalid_parameters.contains(&name) {
+                        invalid_parameters.push(name);
+                    }
+                }
 
                 if invalid_parameters.is_empty() {
                     Ok(())
